@@ -47,14 +47,15 @@ Definition acm_dec (_ : N) : unit := tt.
    outputs: handshakes_out.ack 0, .nak 1, .stall 2, tx.valid 3, tx.last 4
    Specification, per cycle: SET_LINE_CODING -> its data packets are ACKed, its status stage gets a zero-length packet, never a
    STALL; every other class request and every vendor / reserved request -> STALL at every opportunity to answer (IN token of
-   the data or status stage, data packet of an OUT data stage) and nothing else. *)
-Definition hmux_spec (i o : N) : bool :=
+   the data or status stage, data packet of an OUT data stage) and nothing else; with strict = false the answer to an OUT data
+   packet may also be nothing. *)
+Definition hmux_spec (strict : bool) (i o : N) : bool :=
   let typ := bits i 0 2 in let req := bits i 2 8 in
   let dreq := N.testbit i 10 in let sreq := N.testbit i 11 in let rfr := N.testbit i 12 in
   if typ =? 0 then true
   else if (typ =? 1) && (req =? 32) then o =? b2n rfr + 8 * b2n sreq + 16 * b2n sreq
-  else o =? 4 * b2n (dreq || sreq || rfr).
-Definition hmux_mon (m i o : N) : option (N * bool) := Some (0, hmux_spec i o).
+  else (o =? 4 * b2n (dreq || sreq || rfr)) || (negb strict && (o =? 4 * b2n (dreq || sreq))).
+Definition hmux_mon (strict : bool) (m i o : N) : option (N * bool) := Some (0, hmux_spec strict i o).
 
 (* ============================================================================================== *)
 (* Part B: the device specification as an observer                                                  *)
@@ -79,7 +80,10 @@ Record sparams := {
   sp_mps : N;                       (* max packet size of the data endpoints *)
   sp_desc : list (N * list N);      (* wValue (type * 256 + index) -> descriptor bytes *)
   sp_T : N;                         (* host patience, cycles *)
-  sp_naks : N                       (* how many consecutive NAKs a control stage may take *)
+  sp_naks : N;                      (* how many consecutive NAKs a control stage may take *)
+  sp_strict : bool                  (* true: a request that must be STALLed is STALLed at its FIRST answering opportunity, also when that
+                                       is a data packet of an OUT data stage [USB 2.0 8.5.3.4].  false (the weaker reading of C10): such
+                                       data packets may also be left unanswered; the STALL must then come at the status stage *)
 }.
 
 Fixpoint lookup (k : N) (t : list (N * list N)) : option (list N) :=
@@ -302,6 +306,9 @@ Definition c57_step (P : sparams) (s : sstate) (i o : N) : option (sstate * bool
   let with_rx s r := {| z_rx := r; z_tx := z_tx s; z_addr := z_addr s; z_cfg := z_cfg s; z_tok := z_tok s; z_ctl := z_ctl s;
                z_pend := z_pend s; z_wait := z_wait s; z_naks := z_naks s; z_otog := z_otog s; z_itog := z_itog s;
                z_outq := z_outq s; z_tent := z_tent s; z_inq := z_inq s |} in
+  let with_pend s p := {| z_rx := z_rx s; z_tx := z_tx s; z_addr := z_addr s; z_cfg := z_cfg s; z_tok := z_tok s; z_ctl := z_ctl s;
+               z_pend := p; z_wait := z_wait s; z_naks := z_naks s; z_otog := z_otog s; z_itog := z_itog s;
+               z_outq := z_outq s; z_tent := z_tent s; z_inq := z_inq s |} in
   let with_tx s t w := {| z_rx := z_rx s; z_tx := t; z_addr := z_addr s; z_cfg := z_cfg s; z_tok := z_tok s; z_ctl := z_ctl s;
                z_pend := z_pend s; z_wait := w; z_naks := z_naks s; z_otog := z_otog s; z_itog := z_itog s;
                z_outq := z_outq s; z_tent := z_tent s; z_inq := z_inq s |} in
@@ -329,7 +336,10 @@ Definition c57_step (P : sparams) (s : sstate) (i o : N) : option (sstate * bool
       | None =>
           if txv then Some (with_tx s2 (Some (if si_ready i then [so_txd o] else [])) 0, ok_stream && ok2)
           else if awaits_device (z_pend s2) && (sp_T P <=? z_wait s2) && negb rxa
-               then Some (s2, false)                     (* no answer within the host's patience *)
+               then (* no answer within the host's patience: a failure, except (weak reading) for a data packet of an OUT data
+                       stage of a request that must be STALLed -- the STALL is then still owed at the status stage *)
+                    (if negb (sp_strict P) && (match z_pend s2, z_ctl s2 with P_CTL_OUT _, C_STALL => true | _, _ => false end)
+                     then Some (with_pend s2 P_NONE, ok_stream && ok2) else Some (s2, false))
                else Some (s2, ok_stream && ok2)
       | Some l =>
           if txv then Some (with_tx s2 (Some (if si_ready i then l ++ [so_txd o] else l)) 0, ok_stream && ok2)
